@@ -37,6 +37,7 @@ fn main() {
             x => panic!("unknown argument {}", x),
         }
     }
+    std::panic::set_hook(Box::new(|_| {}));
     let f = props::lookup(&prop).unwrap_or_else(|| panic!("unknown property {}", prop));
     let t0 = std::time::Instant::now();
     let results: Vec<Value> = std::thread::scope(|s| {
